@@ -3076,8 +3076,11 @@ class Entity(MutableMapping[str, str]):
         key = key.casefold()
         for k in self._keys:
             if k.casefold() == key:
-                # TODO: B909 bug?
-                return self._keys.pop(k)
+                value = self._keys[k]
+                # Delete through __delitem__ so the by_target / node ID bookkeeping is done
+                # (and classnames stay undeletable).
+                del self[k]
+                return value
         return default
 
     def clear(self) -> None:
